@@ -111,7 +111,7 @@ def expectations(typ, mo, only=None):
     return E
 
 
-def judge(prop, typ, xs, kv, res, case, variant='release', only=None, mo=None, context=''):
+def judge(prop, typ, xs, kv, res, case, variant='release', only=None, mo=None, context='', memo=None, memo_key=None):
     """Check one observation record of a moment-family estimator fed the multiset xs.
     Returns True when the state was non-trivial (n >= 2, sigma > 0, envelope <= 1e-3,
     inside the guard)."""
@@ -136,10 +136,25 @@ def judge(prop, typ, xs, kv, res, case, variant='release', only=None, mo=None, c
         # outside the quantifier's domain (kappa <= 1e12); C17 covers unrestricted conditioning
         res.count('skipped_kappa_out_of_domain')
         return False
-    E = expectations(bt, mo, only)
+    if memo is not None:
+        ek = ('E', bt, memo_key)
+        E = memo.get(ek)
+        if E is None:
+            E = expectations(bt, mo, only)
+            memo[ek] = E
+    else:
+        E = expectations(bt, mo, only)
     nontrivial = False
     for name, e in E.items():
         tok = kv.get(name)
+        if memo is not None and tok is not None:
+            mk = (bt, memo_key, name, tok)
+            hit = memo.get(mk)
+            if hit is not None:
+                res.count('comparisons')
+                if hit == 2:
+                    nontrivial = True
+                continue
         if tok is None:
             res.violation(prop, '%s.%s:missing' % (bt, name), '%s: accessor %s not reported' % (typ, name), case, variant)
             continue
@@ -169,6 +184,10 @@ def judge(prop, typ, xs, kv, res, case, variant='release', only=None, mo=None, c
             res.violation(prop, '%s.%s:%s' % (bt, name, cls), msg, case, variant)
         elif e.exact is not None and not e.vacuous:
             nontrivial = True
+            if memo is not None:
+                memo[(bt, memo_key, name, tok)] = 2
+        elif memo is not None and ok:
+            memo[(bt, memo_key, name, tok)] = 1
     if nontrivial and n >= 2:
         # envelope <= 1e-3 ?
         if ex.C_KURT * n * mo.kappa * ex.U <= Fraction(1, 1000):
